@@ -723,7 +723,7 @@ pub fn minimise<P: Prop>(
                 tries.push(found.sched.clone());
             }
             let mut r = Rng::new(mix(found.run_seed, spent as u64));
-            let extra = if p.isolate() { 8 } else { 40 };
+            let extra = if p.isolate() { 10 } else { 40 };
             for _ in 0..extra {
                 tries.push(SchedSpec::draw(&mut r, p.est_len(&cand)));
             }
@@ -804,7 +804,7 @@ pub fn write_replay<P: Prop>(
     ctx: &WorkerCtx,
     dir: &std::path::Path,
 ) -> (PathBuf, String, String) {
-    let (case, sched, viol, _spent) = minimise(p, found, ctx, if p.isolate() { 1500 } else { 12000 });
+    let (case, sched, viol, _spent) = minimise(p, found, ctx, if p.isolate() { 2500 } else { 12000 });
     // Final confirmation run with the trace.
     let arc = Arc::new(case.clone());
     let out = exec_case(p, &arc, &sched, ctx, true);
